@@ -1282,6 +1282,11 @@ func isHexDigit(b byte) bool {
 // WrapEexec returns head + "currentfile eexec" + encrypted(body) + trailer.
 // binary selects binary vs hex armouring.
 func WrapEexec(t *sim.Tape, head, body, trailer []byte, binary bool) []byte {
+	return wrapEexec(t, head, body, trailer, binary, false)
+}
+
+// wrapEexec: with damage, one hex section in six has one undecodable digit.
+func wrapEexec(t *sim.Tape, head, body, trailer []byte, binary bool, damage bool) []byte {
 	var cipher []byte
 	for try := 0; ; try++ {
 		iv := t.Bytes(4)
@@ -1316,7 +1321,7 @@ func WrapEexec(t *sim.Tape, head, body, trailer []byte, binary bool) []byte {
 		// preferably the byte right after a '>' or '<', where the scanner looks
 		// two bytes ahead
 		bad := -1
-		if t.Choose(6) == 0 && len(cipher) > 5 {
+		if damage && t.Choose(6) == 0 && len(cipher) > 5 {
 			bad = 4 + t.Choose(len(cipher)-4)
 			var cands []int
 			for k := 0; k+1 < len(body); k++ {
@@ -1376,7 +1381,7 @@ func GenPSWithEexec(t *sim.Tape, o PSOpts) *PSProg {
 		body = append(body, '\n')
 	}
 	binary := t.Bool(1, 2)
-	src := WrapEexec(t, append(head.Src, '\n'), body, trailer, binary)
+	src := wrapEexec(t, append(head.Src, '\n'), body, trailer, binary, true)
 	p := &PSProg{Src: src, HasFiles: true, HasEexec: true, HasDSC: head.HasDSC, HasStop: head.HasStop || inner.HasStop,
 		HasLoop: head.HasLoop || inner.HasLoop, HasProcCall: head.HasProcCall || inner.HasProcCall, NTokens: head.NTokens + inner.NTokens}
 	return p
